@@ -1472,7 +1472,7 @@ impl Formatter {
         .replace(">", "&gt;");
       format!("<pre class=\"mech-code-block\">{}</pre>",escaped_code)
     } else {
-      format!("```\n{}\n```",code)
+      if code.ends_with('\n') { format!("```\n{}```\n", code) } else { format!("```\n{}\n```\n", code) }
     }
   }
 
